@@ -48,8 +48,14 @@ METHOD.  Every function is executed symbolically ONCE PER GRID CLASS (nine runs)
                    numbers INTERPRET the operator methods (`__truediv__`, `__mul__`, `__rmul__`, `__add__`, `__sub__`) and
                    the `value` property of class CellVariable in cell.py.
   helpers          calls of module-level functions (`cell_size_array(phi.domain)`, `_harmonic_face(a, b, c, d)`,
-                   `linearSourceTerm(a/dt)`, `gradientTerm(phi)`) are interpreted INLINE with the evaluated arguments
-                   (argument arrays are frozen: no in-place assignment to them inside the helper)
+                   `linearSourceTerm(a/dt)`, `gradientTerm(phi)`, and whatever an extract-function refactoring adds, also
+                   `from .x import f`) are interpreted INLINE with the evaluated arguments by the mechanism of tnum.py
+                   (PURE LOCAL HELPERS: positional / keyword arguments, numeric defaults, undecorated plain `def` bound
+                   once at module level, last definition wins, no *args, no global / nonlocal, no recursion, depth ≤ 4).
+                   Argument arrays are frozen, INCLUDING the component arrays of a FaceVariable and the interior of a
+                   derived CellVariable that is passed: no in-place assignment to them inside the helper (a helper that
+                   modifies the FaceVariable it receives stays untranslated: the caller's other names for those arrays
+                   are not visible to the aliasing check inside the helper)
   np.where(c, a, b)   `if c then a else b` elementwise (numpy broadcasting of the three operands);
                    `b1 | b2`, `b1 & b2` on boolean arrays, `x or y` / `x and y` on loop scalars: `∨`, `∧`
   np.exp, np.log   `expF (..)`, `logF (..)`: uninterpreted functions (TRUSTED to be elementwise)
@@ -116,6 +122,7 @@ def rcond(c, names):
 
 
 tupw.rcond = rcond
+tnum.QUIET_HELPERS |= {"cell_size_array", "_harmonic_face", "linearSourceTerm", "constantSourceTerm", "gradientTerm"}
 
 
 # ---------------------------------------------------------------------------------------------------------
@@ -154,7 +161,7 @@ class Ctx:
         src = os.path.join(repo, "src", "pyfvtool")
         self.trees = {}
         for f in ("mesh", "averaging", "source", "calculus", "cell", "face"):
-            self.trees[f] = tnum.note_module(ast.parse(open(os.path.join(src, f + ".py")).read()))
+            self.trees[f] = tnum.parse_module(src, f + ".py")
         self.mesh = MeshInfo(self.trees["mesh"])
         self.cellcls = self.find_class("cell", "CellVariable")
         self.face_by_ref = self.check_face_init()
@@ -750,26 +757,40 @@ class AInterp(tupw.UInterp):
         return Diag(vals)
 
     def helper_call(self, name, node):
-        if node.keywords or any(isinstance(a, ast.Starred) for a in node.args):
-            raise Bad(f"call of {name} with keywords / starred arguments")
+        """a module-level function of the same module: interpreted inline by tnum.Interp.call_helper (positional and
+        keyword arguments, numeric defaults; the definition must be a plain undecorated function; arguments frozen)"""
         fn = self.helpers.fns[name]
-        a = tinert.effective_args(fn)
-        if a.vararg or a.kwarg or a.kwonlyargs or a.defaults or len(a.args) != len(node.args):
-            raise Bad(f"call of {name}: signature")
-        args = [self.ev(x) for x in node.args]
-        for v in args:
-            if isinstance(v, Ref) and v.what[0] not in ("par", "mesh"):
-                raise Bad(f"call of {name}: argument kind {v.what[0]}")
-            if isinstance(v, (LoopIdx, Empty, Zeros, Vec, Mat, Diag, Cat)):
-                raise Bad(f"call of {name}: argument kind {type(v).__name__}")
-        sub = self.spawn()
-        for p, v in zip(a.args, args):
-            sub.env[p.arg] = v
-        sub.frozen = [bufof(x) for v in args for x in arrs_in(v)]
-        try:
-            return sub.run(fn)
-        except Bad as ex:
-            raise Bad(f"{name}: {ex}")
+        r = tnum.resolve_helper(self.modname, name)
+        if r is None or r[0] is not fn:
+            raise Bad(f"call {name}: the name does not denote the module-level function {name}")
+        return self.call_helper(fn, self.modname, node)
+
+    def check_helper_arg(self, name, v):
+        if isinstance(v, Ref) and v.what[0] not in ("par", "mesh"):
+            raise Bad(f"call of {name}: argument kind {v.what[0]}")
+        if isinstance(v, (LoopIdx, Empty, Zeros, Vec, Mat, Diag, Cat)):
+            raise Bad(f"call of {name}: argument kind {type(v).__name__}")
+
+    def spawn_helper(self, fn, modname):
+        self.ctx.trees.setdefault(modname, tnum.MODULES[modname])
+        sub = self.spawn(modname)
+        sub.frozen = list(self.frozen)
+        self.init_helper(sub, modname)
+        return sub
+
+    def arrays_in(self, v):
+        """the arrays an argument gives access to (frozen inside a helper)"""
+        if isinstance(v, FaceObj):
+            for c in v.comps.values():
+                if isinstance(c, Arr):
+                    yield c
+        elif isinstance(v, DCell):
+            yield v.interior
+        elif isinstance(v, Tup):
+            for x in v.items:
+                yield from self.arrays_in(x)
+        elif isinstance(v, Arr):
+            yield v
 
     def np_call(self, name, node):
         if node.keywords:
@@ -1063,7 +1084,7 @@ def main():
     repo = os.environ.get("VERIF_REPO", "/repo")
     dst = sys.argv[1]
     text, status = generate(repo)
-    status = tinert.annotate(status)
+    status = tnum.annotate_helpers(tinert.annotate(status))
     write_if_changed(dst, text)
     base = os.path.splitext(os.path.basename(dst))[0].lower()
     write_if_changed(os.path.join(os.path.dirname(os.path.abspath(dst)), f"{base}_status.json"),
